@@ -51,13 +51,13 @@ SETS = {
     # scalar with every frame, colour with the dyadic frame
     # (+ with the dyadic frame: a base image whose float data came from uint8 data through the public
     # img_as(float), and one that was used at another origin before it got the frame's origin)
-    "std": lambda frame: [(False, o) for o in OVERLAPS] + ([(True, o) for o in OVERLAPS] + [(k, o) for k in ("converted", "moved") for o in (0, 0.25)] if frame == "dyadic" else []),
+    "std": lambda frame: [(False, o) for o in OVERLAPS] + ([(True, o) for o in OVERLAPS] + [(k, o) for k in ("converted", "moved", "nonfinite") for o in (0, 0.25)] if frame == "dyadic" else []),
     # scalar x {unit, default, nondyadic} x overlap {0, 0.25}; colour x dyadic x overlap {0.1, 0.5}
     "wide": lambda frame: [(True, 0.1), (True, 0.5)] if frame == "dyadic" else [(False, 0.0), (False, 0.25)],
 }
 
 RULE = (
-    "shape (H, W) x patch counts (n0, n1) in 1..6 squared x relative overlap {0, 0.1, 0.25, 0.5} x payload {scalar float64, colour uint16 x3, scalar converted from uint8 by img_as(float), scalar image moved to its origin after use} x frame "
+    "shape (H, W) x patch counts (n0, n1) in 1..6 squared x relative overlap {0, 0.1, 0.25, 0.5} x payload {scalar float64, colour uint16 x3, scalar converted from uint8 by img_as(float), scalar image moved to its origin after use, scalar image with +-inf voxels} x frame "
     "{unit voxel, dyadic anisotropic voxel + user origin, Image default dimensions [1,1], non-dyadic voxel + far origin}. Every shape with "
     "1 <= H, W <= 12: all 36 count pairs, all overlaps, scalar x every frame and colour x dyadic frame (thorough: complete payload x frame product). "
     "Extents 13..40: quick = shapes (1,H), (H,1), (H,H) with counts (1,k), (k,1), (k,k), k = 1..6; thorough = every shape up to 40x40 with all 36 count "
@@ -138,6 +138,12 @@ def _base(shape, frame, colour):
         data = (np.arange(h * w * 3, dtype=np.uint16) + 1).reshape(h, w, 3)
     elif kind == "converted":
         data = ((np.arange(h * w) % 251) + 1).astype(np.uint8).reshape(h, w)
+    elif kind == "nonfinite":
+        # float data with +inf / -inf voxels spread over the image (every third / fifth voxel), so that
+        # some lie in overlap regions for every patch layout
+        data = (np.arange(h * w, dtype=float) + 1.0).reshape(h, w)
+        data.flat[::3] = np.inf
+        data.flat[1::5] = -np.inf
     else:
         data = (np.arange(h * w, dtype=float) + 1.0).reshape(h, w)
     kw = dict(space_dim=2, scalar=not colour)
@@ -297,7 +303,7 @@ def _one(r, shape, n, frame, colour, ov):
         pi_, pj_ = npi - 1, 0
         old = np.array(P(pi_, pj_).img)
         if old.size:
-            P.set_image(np.array(old) * 0 + np.asarray(7, dtype=old.dtype), pi_, pj_)
+            P.set_image(np.full_like(old, 7), pi_, pj_)
             out2 = P.assemble()
             want2 = pristine.copy()
             c = np.asarray(P.global_corners_voxels[pi_][pj_], dtype=int)
